@@ -6,6 +6,7 @@ import (
 	"fmt"
 	"math"
 	"strings"
+	"sync"
 	"testing"
 	"time"
 
@@ -281,7 +282,7 @@ func c22Judge(run *verifkit.Run, carrier string, st c22Stamp, got time.Time, wit
 func TestVerif_C22(t *testing.T) {
 	run := verifkit.Start(t, "C22", "route")
 	defer run.Finish()
-	run.Rule("per case one request carrying 1-5 events whose instants are drawn from 2001-09-09..2286-11-20 (10-digit epoch seconds; boundaries 10^9, 10^10-1, 2^31, 2^32, 2^33, MaxInt64 ns, plus uniform and recent values) with fractions of 0/3/6/9 (epoch) or 1-9 (RFC3339Nano) digits biased to 0, 1, max, half; rendered as RFC3339 / RFC3339Nano with zone offsets, 10/13/16/19-digit epochs in X-Honeycomb-Event-Time (/1/events JSON+msgpack) or a /1/batch JSON `time` string, or msgpack timestamp 32/64/96 in a /1/batch msgpack `time`; events without trace ID additionally travel through a real DirectTransmission to a fake Honeycomb whose body is decoded independently; non-trivial = instant with a sub-second part or on a boundary; distinct = (carrier, format, boundary/fraction class)")
+	run.Rule("per case one request carrying 1-5 events whose instants are drawn from 2001-09-09..2286-11-20 (10-digit epoch seconds; boundaries 10^9, 10^10-1, 2^31, 2^32, 2^33, MaxInt64 ns, plus uniform and recent values) with fractions of 0/3/6/9 (epoch) or 1-9 (RFC3339Nano) digits biased to 0, 1, max, half; rendered as RFC3339 / RFC3339Nano with zone offsets, 10/13/16/19-digit epochs in X-Honeycomb-Event-Time (/1/events JSON+msgpack) or a /1/batch JSON `time` string, or msgpack timestamp 32/64/96 in a /1/batch msgpack `time`; events without trace ID additionally travel through a real DirectTransmission to a fake Honeycomb whose body is decoded independently; then a concurrent phase: per case 6-16 goroutines each post 2-4 JSON batches (1-8 events, padded to different lengths, RFC3339 and digit-epoch time strings, some gzip/zstd) to the same router at the same moment, each event judged against its own instant and a mismatch replayed alone; non-trivial = instant with a sub-second part or on a boundary, or a concurrent round; distinct = (carrier, format, boundary/fraction class)")
 	run.Assume("Event.Timestamp handed to Collector.AddSpan / Transmission.EnqueueEvent is what Refinery forwards; the wire leg is checked for upstream events only")
 	run.Assume("RFC3339 inputs use upper-case T/Z, no leap seconds, at most 9 fractional digits")
 
@@ -411,5 +412,110 @@ func TestVerif_C22(t *testing.T) {
 				return s
 			}()})
 		}
+	})
+
+	c22Concurrent(t, run, b)
+}
+
+// c22Concurrent: overlapping JSON /1/batch requests on the same router. Every event is
+// still compared with ITS OWN supplied instant (unique ids), so the verdict is logical:
+// anything a request leaves behind in state shared between requests (pooled parsers,
+// pooled body buffers) and another request reads back shows up as a wrong instant. A
+// mismatching event is replayed alone; only if the lone replay is exact is the
+// violation attributed to concurrency.
+func c22Concurrent(t *testing.T, run *verifkit.Run, b *E3Bench) {
+	type cev struct {
+		id string
+		st c22Stamp
+	}
+	type creq struct {
+		req *E3Req
+		evs []cev
+	}
+	run.Cases("concurrent", run.N(120, 4000), func(i int, rng *verifkit.Rand) {
+		workers := rng.Range(6, 16)
+		perWorker := rng.Range(2, 4)
+		plan := make([][]creq, workers)
+		all := map[string]cev{}
+		reqOf := map[string]*E3Req{}
+		for w := 0; w < workers; w++ {
+			for q := 0; q < perWorker; q++ {
+				var items []E3BatchItem
+				var cr creq
+				for k, n := 0, rng.Range(1, 8); k < n; k++ {
+					e := cev{id: fmt.Sprintf("c22c-%d-%d-%d-%d", i, w, q, k), st: c22Text(t, rng)}
+					data := []E3KV{KV("verif.id", VStr(e.id)), KV("trace.trace_id", VStr("t-"+e.id)),
+						KV("pad", VStr(strings.Repeat(verifkit.Pick(rng, "x", "9", "-", "Z"), rng.Intn(300))))}
+					verifkit.Shuffle(rng, data)
+					it := E3BatchItem{Time: e3P(e.st.val), Rate: e3P(VInt(1)), Data: e3P(VMap(data...))}
+					if rng.Chance(0.4) {
+						it.Order = []string{"data", "time", "samplerate"}
+					}
+					items = append(items, it)
+					cr.evs = append(cr.evs, e)
+					all[e.id] = e
+				}
+				req, err := e3BatchReq(E3Incoming, E3JSON, "c22", E3KeyLegacy, items)
+				if err != nil {
+					t.Fatalf("harness: encode: %v", err)
+				}
+				switch rng.Intn(6) {
+				case 0:
+					req.Gzip()
+				case 1:
+					req.Zstd()
+				}
+				cr.req = req
+				for _, e := range cr.evs {
+					reqOf[e.id] = req
+				}
+				plan[w] = append(plan[w], cr)
+			}
+		}
+		b.Log.Reset()
+		start := make(chan struct{})
+		var wg sync.WaitGroup
+		for w := 0; w < workers; w++ {
+			wg.Add(1)
+			go func(rs []creq) {
+				defer wg.Done()
+				<-start
+				for _, r := range rs {
+					b.Serve(r.req)
+				}
+			}(plan[w])
+		}
+		close(start)
+		wg.Wait()
+		run.Count("concurrent_requests", int64(workers*perWorker))
+		byID := b.Log.ByID()
+		for id, e := range all {
+			obs := byID[id]
+			if len(obs) != 1 {
+				run.Inconclusive(fmt.Sprintf("concurrent case %d: event %s observed %d times: timestamp cannot be judged", i, id, len(obs)))
+				continue
+			}
+			run.Count("concurrent_events_judged", 1)
+			got := obs[0].Ev.Timestamp
+			if got.Unix() == e.st.Sec && int64(got.Nanosecond()) == e.st.Nsec {
+				continue
+			}
+			// replay the event's request alone
+			b.Log.Reset()
+			b.Serve(reqOf[id])
+			alone := b.Log.ByID()[id]
+			wit := map[string]any{"request": reqOf[id].Witness(), "workers": workers, "requests_per_worker": perWorker, "observed_at": obs[0].Where}
+			if len(alone) == 1 && (alone[0].Ev.Timestamp.Unix() != e.st.Sec || int64(alone[0].Ev.Timestamp.Nanosecond()) != e.st.Nsec) {
+				c22Judge(run, "batch-json-time", e.st, got, wit) // wrong even without concurrency
+				continue
+			}
+			want := time.Unix(e.st.Sec, e.st.Nsec).UTC()
+			wit["supplied"], wit["want"], wit["got"] = e.st, want.Format(time.RFC3339Nano), got.UTC().Format(time.RFC3339Nano)
+			wit["exact_when_replayed_alone"] = len(alone) == 1
+			run.Violation("C22/batch-json-time/concurrent-requests/wrong-instant",
+				fmt.Sprintf("with %d overlapping JSON batch requests event time %q was forwarded as %s (supplied %s); the same request alone is exact",
+					workers, e.st.Text, wit["got"], wit["want"]), wit)
+		}
+		run.Nontrivial(fmt.Sprintf("concurrent|%d|%d", workers, perWorker))
 	})
 }
